@@ -846,6 +846,12 @@ WITNESS_PAIRS = [
     ("scan-neutral:real-neutral", "0.5<\\[1 2 3]", "0.5,(0.5<1),((0.5<1)<2),(((0.5<1)<2)<3)"),
     ("scan-neutral:real-neutral", "2.5{_x*y}\\[1 2 3]", "2.5,(_2.5*1),(_(_2.5*1)*2),(_(_(_2.5*1)*2)*3)"),
     ("scan-neutral:real-neutral", "1.5{y}\\[4 5]", "1.5,4,5"), ("scan-neutral:real-neutral", "(-0.5){x>y}\\[1 0 1]", "(-0.5),((-0.5)>1),(((-0.5)>1)>0),((((-0.5)>1)>0)>1)"),
+    # Each over a string: the results are a string only when ALL of them are characters
+    ("each:string:mixed-results", "{:[x=0ca;\"[a]\";x]}'\"abc\"", "[\"[a]\" 0cb 0cc]"),
+    ("each:string:mixed-results", "{:[x=0c1;1;x]}'\"a1b\"", "[0ca 1 0cb]"),
+    ("each:string:mixed-results", "{:[x=0cb;[1 2];x]}'\"abc\"", "[0ca [1 2] 0cc]"),
+    ("each:string:all-characters", "{:[x=0ca;0cz;x]}'\"abc\"", "\"zbc\""),
+    ("each:string:no-characters", "{#x}'\"ab\"", "[97 98]"),
     ("over-neutral:real-neutral", "2.5{_x*y}/[1 2 3]", "_(_(_2.5*1)*2)*3"), ("scan-neutral:int-neutral", "4+\\[1 2 3]", "4,(4+1),((4+1)+2),(((4+1)+2)+3)"),
 ]
 
